@@ -8,6 +8,8 @@ def summarize(trace):
         s = '%s:%s(%s)' % (st['sid'], st['op'], ','.join(st['args']))
         if st.get('obs'):
             s += '@' + ','.join(str(o) for o in st['obs'])
+        if st.get('svdfault'):
+            s += '!svd'
         out.append(s)
     return out
 
@@ -125,6 +127,10 @@ def shrink_candidates(desc):
         if st.get('obs'):
             st2 = dict(st)
             st2.pop('obs')
+            yield {'trace': tr[:k] + [st2] + tr[k + 1:]}
+        if st.get('svdfault'):
+            st2 = dict(st)
+            st2.pop('svdfault')
             yield {'trace': tr[:k] + [st2] + tr[k + 1:]}
 
 
